@@ -123,7 +123,7 @@ impl Property for C03 {
             }
             if rng.chance(12) {
                 // more passes than the pre-execution's jump budget: level 2 must roll the loop back
-                let rounds = rng.usize(99, 190);
+                let rounds = if rng.chance(40) { *rng.pick(&[99usize, 100, 101, 102, 103]) } else { rng.usize(99, 190) };
                 let mut lp = Vec::new();
                 gen::small_loop_core(rng, &mut lp, rounds);
                 let pos = rng.usize(0, cmds.len());
